@@ -2,6 +2,7 @@ package verifh
 
 import (
 	"database/sql/driver"
+	"errors"
 	"time"
 
 	"gorm.io/gorm"
@@ -111,6 +112,11 @@ func c19Cases() []c19Case {
 			var out []Item
 			return db.Model(&out).Clauses(clause.Returning{Columns: []clause.Column{{Name: "name"}}}).Where("score = ?", v[1]).Update("age", v[0])
 		}},
+		// writes the real run refuses (no condition): the dry run must refuse them too, not expose a statement
+		{"refused-delete-no-key", func(db *gorm.DB, v []int) *gorm.DB { return db.Delete(&Item{}) }},
+		{"refused-delete-soft-no-key", func(db *gorm.DB, v []int) *gorm.DB { return db.Delete(&Doc{}) }},
+		{"refused-delete-empty-slice", func(db *gorm.DB, v []int) *gorm.DB { return db.Delete(&[]Item{}) }},
+		{"refused-update-no-condition", func(db *gorm.DB, v []int) *gorm.DB { return db.Model(&Item{}).Update("age", v[0]) }},
 		{"delete-returning", func(db *gorm.DB, v []int) *gorm.DB {
 			var out []Item
 			return db.Clauses(clause.Returning{}).Where("age = ?", v[0]).Delete(&out)
@@ -179,9 +185,16 @@ func H_C19_Twice(shape int) {
 	hooks = &hookCtl{}
 	dres := c.run(dry, v)
 	hooks = &hookCtl{}
-	c.run(real, v)
+	rres := c.run(real, v)
 	verifrt.Reach("both-ran")
 	sql := dres.Statement.SQL.String()
+	if hasPrefix(c.name, "refused-") {
+		// the real run refuses the write and sends nothing: the dry run reports the same refusal
+		verifrt.Assert(errors.Is(rres.Error, gorm.ErrMissingWhereClause) && sReal.Count("EXEC")+sReal.Count("QUERY") == 0, "C19.real-run-not-refused")
+		verifrt.Assert(errors.Is(dres.Error, gorm.ErrMissingWhereClause), "C19.dry-run-hides-refusal")
+		verifrt.Assert(sDry.Count("PREPARE")+sDry.Count("EXEC")+sDry.Count("QUERY") == 0, "C19.dry-run-sent")
+		return
+	}
 	verifrt.Observe("dry-sql", sql)
 	verifrt.Observe("dry-log", sDry.Kinds())
 	verifrt.Observe("real-log", sReal.Kinds())
@@ -219,6 +232,11 @@ func H_C19_ToSQL(shape int) {
 	c := cases[shape%len(cases)]
 	dial := stubDialector{returning: shape >= len(cases)}
 	verifrt.Tag(c.name)
+	if hasPrefix(c.name, "refused-") {
+		// ToSQL has no way to report the refusal (it returns text only): covered by H_C19_Twice
+		verifrt.Reach("outside-claim:tosql-of-refused-write")
+		return
+	}
 	v := []int{verifrt.Int("v0"), verifrt.Int("v1")}
 	sDry, sReal := NewStore(), NewStore()
 	dry := openReal(dial, sDry, nil)
